@@ -858,6 +858,9 @@ func sameValue(a, b ssa.Value, d int) bool {
 				pure = true
 			}
 		}
+		if n == "builtin.len" || n == "builtin.cap" {
+			pure = true
+		}
 		if !pure {
 			return false
 		}
